@@ -212,13 +212,16 @@ def colour_ok(kind, want, got):
   return got is None
 
 
-def compare_stream(res, ci, exp, obs, cue_begin, feats, nts, where):
-  """attribute clauses for two character streams with identical text"""
+def compare_stream(res, ci, exp, obs, cue_begin, feats, nts, where, loose_roles=False):
+  """attribute clauses for two character streams with identical text; loose_roles: a ruby of the cue has a base or annotation
+  without text, which may or may not be materialised, so only the kind (base / annotation) and the ruby are compared"""
   done = set()
   for k, ((ch, ea), (_, oa)) in enumerate(zip(exp, obs)):
     if ea is None:
       continue
     leak = ea["leak"]
+    if loose_roles and ea["role"] is not None and oa["role"] is not None:
+      ea, oa = dict(ea, role=ea["role"][:2]), dict(oa, role=oa["role"][:2])
     for key, name in (("b", "bold"), ("i", "italic"), ("u", "underline"), ("lang", "lang"), ("role", "ruby-role")):
       if ea[key] != oa[key] and name not in done:
         done.add(name)
@@ -467,14 +470,15 @@ def check(case, res):
     if "float-span-begin" in obs["notes"]:
       res.fail("time-type:float", "cue %d: a span begin is a float" % ci)
     et, ot = text_of(e["stream"]), text_of(obs["stream"])
+    loose = any(not text_of(x) for r in e["rubies"] for x in r["rb"] + [y for y, h in zip(r["rt"], r["has_rt"]) if h])
     if et != ot:
       res.fail(("text" if et.count("\n") == ot.count("\n") else "lines") + text_feature(feats), "cue %d: lines expected %r got %r" % (ci, et.split("\n"), ot.split("\n")))
     else:
-      compare_stream(res, ci, e["stream"], obs["stream"], e["begin"], feats, e["nts"], "")
+      compare_stream(res, ci, e["stream"], obs["stream"], e["begin"], feats, e["nts"], "", loose)
     # ruby: n-th annotation belongs to the n-th base
     ex_r = [[[text_of(s) for s in r["rb"]], [text_of(s) for s, h in zip(r["rt"], r["has_rt"]) if h]] for r in e["rubies"]]
     ob_r = [[[text_of(s) for s in r["rb"]], [text_of(s) for s in r["rt"]]] for r in obs["rubies"]]
-    if any("" in l for r in ex_r for l in r):
+    if loose:
       # a base or annotation without any text may be represented by an empty element or by none
       res.label("cue:ruby-empty-component")
       ex_r = [[[t for t in l if t] for l in r] for r in ex_r]
@@ -484,7 +488,7 @@ def check(case, res):
     elif et == ot:
       for r_e, r_o in zip(e["rubies"], obs["rubies"]):
         for s_e, s_o in zip([s for s, h in zip(r_e["rt"], r_e["has_rt"]) if h], r_o["rt"]):
-          compare_stream(res, ci, s_e, s_o, e["begin"], feats, e["nts"], ":annotation")
+          compare_stream(res, ci, s_e, s_o, e["begin"], feats, e["nts"], ":annotation", loose)
     # geometry
     r = p.get_region()
     if r is None:
